@@ -59,4 +59,11 @@ def Map.insert? {κ ν : Type} [BEq κ] (m : Map κ ν) (k : κ) (v : ν) : Opti
 def Map.erase {κ ν : Type} [BEq κ] (m : Map κ ν) (k : κ) : Map κ ν :=
   m.map fun l => l.filter fun e => !(e.1 == k)
 
+/-- the pairs (index, element) a `for i, x := range xs` visits -/
+def enumFrom {α : Type} (n : Nat) : List α → List (Int × α)
+  | [] => []
+  | x :: r => (Int.ofNat n, x) :: enumFrom (n + 1) r
+
+def enum {α : Type} (xs : List α) : List (Int × α) := enumFrom 0 xs
+
 end Gen.Rt
